@@ -256,3 +256,22 @@ Example frame_agree_nonvacuous :
   parse_notify w_reply6 = Ok (Some 7) /\ rfc_reply_id w_reply6 = Some 7 /\
   rfc_request_id w_request4 = Some 7 /\ parse_notify w_request4 = Ok None.
 Proof. vm_compute. repeat split. Qed.
+
+(* non-vacuity of ping_foreign: an echo request, a reply for another identifier (7, the call has 1),
+   the send returning and the timer — the call times out *)
+Definition ex_foreign_mid : list event :=
+  [frame_event w_request4; frame_event w_reply6; Sent 0%nat true; Tick SECOND; Timeout 0%nat].
+Example foreign_nonvacuous :
+  exists s, run FIX24 (init 1) ([] ++ Begin 0%nat SECOND :: ex_foreign_mid ++ End 0%nat :: []) = Ok s /\
+    (forall e, In e ex_foreign_mid ->
+       (exists f, e = frame_event f /\ rfc_reply_id f <> id_of s 0%nat) \/ (forall j, e <> Notify j)) /\
+    result_of s 0%nat = Some RTimeout.
+Proof.
+  eexists. split; [vm_compute; reflexivity|]. split; [|vm_compute; reflexivity].
+  intros e [E|[E|[E|[E|[E|[]]]]]]; subst e.
+  - left. exists w_request4. split; [reflexivity|]. vm_compute. discriminate.
+  - left. exists w_reply6. split; [reflexivity|]. vm_compute. discriminate.
+  - right. intros j. discriminate.
+  - right. intros j. discriminate.
+  - right. intros j. discriminate.
+Qed.
